@@ -56,7 +56,185 @@ def m_part(run, scr, nat):
     if not any(d["expect"] == "info" and d.get("verdict") == "sat" for d in done):
         run.inconclusive.append("no warning-pushing path of RecipeCollector::value is reachable: the soundness obligation is vacuous")
     run.samples.append({"engine": "mir-smt", "obligation": items[0][0], "asserts": items[0][1][-2:]})
+    try:
+        error_branch_part(run, c.ms, nat)
+    except mir.Unsupported as e:
+        run.inconclusive.append("encoder (parse_events Error branch): %s" % e)
     c.ms.close()
+
+
+def error_branch_part(run, ms, nat):
+    """parse-error short-circuit of RecipeCollector::parse_events: from a collector whose report already holds diagnostics of
+    symbolic stage and severity, an `Event::Error` followed by further events ends the pass with NO output and a report made of
+    exactly: the earlier PARSE-stage diagnostics, the error, and every later Error / Warning event, in order"""
+    from mir import VecVal
+    dump, decls = ms.dump, ms.decls
+    f_pe = dump.find_impl_method("parse_events", r"_1: RecipeCollector<'_, '_>, _2: impl Iterator<Item = Event<'i>>")
+    run.functions.append("analysis::RecipeCollector::parse_events (MIR; Error branch: SourceReport::error/push/retain, PassResult::new)")
+    sem = smt.RealSem(prefix="pe")
+    mods = dict(models.STD_MODELS)
+    mods.update(models.MORE_MODELS)
+    mods.update(models.VEC_MODELS)
+    mods.update(models.RESULT_MODELS)
+    it = mir.Interp(dump, decls, sem, models=mods)
+    rc = decls.structs["RecipeCollector"]
+    sr = decls.structs["SourceReport"]
+    sd = decls.structs["SourceDiag"]
+    ev_names = [v for v, _ in decls.enums["Event"]]
+    bk_names = [v for v, _ in decls.enums["BlockKind"]]
+    dm_names = [v for v, _ in decls.enums["DefineMode"]]
+    st_names = [v for v, _ in decls.enums["Stage"]]
+    sv_names = [v for v, _ in decls.enums["Severity"]]
+
+    def fieldless(ty, names, expr):
+        return Enum(ty, SV("isize", expr), {n: Agg(ty + "::" + n, {}) for n in names}, names)
+
+    def diag(name, stage=None, severity=None):
+        st = sem.sym_int(name + "_stage", "isize", 0, 1) if stage is None else str(st_names.index(stage))
+        sv = sem.sym_int(name + "_sev", "isize", 0, 1) if severity is None else str(sv_names.index(severity))
+        d = OpenAgg("SourceDiag", {str(sd.index("stage")): fieldless("Stage", st_names, st), str(sd.index("severity")): fieldless("Severity", sv_names, sv)})
+        d.stage_expr = st
+        return d
+    old = [diag("old0"), diag("old1")]
+    # what the parser emits: parse-stage diagnostics; an Error event carries an error, a Warning event a warning
+    e1 = diag("e1", "Parse", "Error")
+    w1 = diag("w1", "Parse", "Warning")
+    e2 = diag("e2", "Parse", "Error")
+    k = sem.sym_int("kind", "isize", 0, len(bk_names) - 1)
+    mk_ev = lambda var, payload: Enum("Event", SV("isize", str(ev_names.index(var))), {var: Agg("Event::" + var, {"0": payload})}, ev_names)
+    events = [mk_ev("Error", e1), mk_ev("Start", fieldless("BlockKind", bk_names, k)), mk_ev("Warning", w1), mk_ev("Error", e2),
+              mk_ev("End", fieldless("BlockKind", bk_names, k))]
+    report = Agg("SourceReport", {str(sr.index("buf")): VecVal(list(old)), str(sr.index("severity")): it._mk_enum("Option", "None", [])})
+    dm = sem.sym_int("define_mode", "isize", 0, len(dm_names) - 1)
+    col = OpenAgg("RecipeCollector", {
+        str(rc.index("ctx")): report,
+        str(rc.index("define_mode")): fieldless("DefineMode", dm_names, dm),
+        str(rc.index("step_counter")): SV("u32", sem.sym_int("c0", "u32", 1, 1000)),
+    })
+    results = []
+
+    def m_pass_result(it_, a, callee):
+        it_.emit(("result", a[0], a[1]))
+        return Opaque("PassResult", a)
+
+    def m_retain(it_, a, callee):
+        vec = it_.deref(a[0], it_.cur_env)
+        clo = a[1]
+        out = []
+        for pc, env, acc in it_.run_closure_seq(clo, list(vec.items)):
+            if any(kd == "panic" for kd, _ in acc):
+                out.append((pc, None, "panic", "closure panicked"))
+                continue
+            # each closure result is a boolean term; fork on every one of them
+            states = [([], [])]
+            for item, (_, r) in zip(vec.items, acc):
+                nxt = []
+                for cpc, kept in states:
+                    nxt.append((cpc + [r.expr], kept + [item]))
+                    nxt.append((cpc + ["(not %s)" % r.expr], kept))
+                states = nxt
+            for cpc, kept in states:
+                env2 = mir.fork_env(env)
+                it_.write_ref(a[0], VecVal(kept), env2)
+                out.append((pc + cpc, Opaque("unit"), "return", None, {"env": env2}))
+        return out
+    eq_discr = lambda it_, a, c_: SV("bool", sem.simplify("(= %s %s)" % (it_.deref(a[0], it_.cur_env).discr.expr, it_.deref(a[1], it_.cur_env).discr.expr)))
+    ne_discr = lambda it_, a, c_: SV("bool", sem.simplify("(not (= %s %s))" % (it_.deref(a[0], it_.cur_env).discr.expr, it_.deref(a[1], it_.cur_env).discr.expr)))
+    it.models.update({
+        r"^<impl Iterator<Item = Event<'i>> as Iterator>::by_ref$": models.m_identity,
+        r"^<impl Iterator<Item = Event<'i>> as Iterator>::next$": models.m_iter_next,
+        r"^<&mut impl Iterator<Item = Event<'i>> as Iterator>::for_each::<": models.m_for_each,
+        r"^<(DefineMode|BlockKind|Stage|error::Stage|Severity|error::Severity) as PartialEq>::eq$": eq_discr,
+        r"^<(DefineMode|BlockKind|Stage|error::Stage|Severity|error::Severity) as PartialEq>::ne$": ne_discr,
+        r"^Vec::<SourceDiag>::retain::<": m_retain,
+        r"^Vec::<error::SourceDiag>::retain::<": m_retain,
+        r"^PassResult::<.*>::new$": m_pass_result,
+        r"^std::string::String::new$": lambda it_, a, c_: Opaque("empty string"),
+        r"^Vec::<.*>::new$": lambda it_, a, c_: VecVal([]),
+        r"^Arguments::<'_>::from_str$": models.m_opaque,
+    })
+    outs = it.run(f_pe, [col, models.IterVal(events)])
+    items = []
+    n = 0
+    parse_idx = st_names.index("Parse")
+    for o in outs:
+        p = ">".join(o.trace[-2:])
+        pcs = mcheck.pc_assert(o.pc)
+        if o.kind == "panic":
+            items.append(("parse-error short-circuit never panics (%s)" % str(o.msg)[:40], pcs, "unsat"))
+            continue
+        if o.kind != "return":
+            continue
+        res = [e for e in o.events if isinstance(e, tuple) and e[0] == "result"]
+        if len(res) != 1:
+            items.append(("parse-error short-circuit path[%s]: the pass ends in exactly one PassResult" % p, pcs, "unsat"))
+            continue
+        n += 1
+        _, output, rep = res[0]
+        no_output = "true" if (isinstance(output, Enum) and output.discr.expr == "0") else "false"
+        buf = rep.fields[str(sr.index("buf"))].items if isinstance(rep, Agg) else None
+        if buf is None:
+            want = "false"
+        else:
+            # expected content, decided per earlier diagnostic by its stage
+            alts = []
+            for keep0 in (True, False):
+                for keep1 in (True, False):
+                    exp = ([old[0]] if keep0 else []) + ([old[1]] if keep1 else []) + [e1, w1, e2]
+                    same_list = len(buf) == len(exp) and all(x is y for x, y in zip(buf, exp))
+                    cond = "(and (%s (= %s %d)) (%s (= %s %d)))" % ("=" if keep0 else "distinct", "true", 1, "=", "true", 1)
+                    c0 = "(= %s %d)" % (old[0].stage_expr, parse_idx)
+                    c1 = "(= %s %d)" % (old[1].stage_expr, parse_idx)
+                    alts.append("(and %s %s %s)" % (c0 if keep0 else "(not %s)" % c0, c1 if keep1 else "(not %s)" % c1, "true" if same_list else "false"))
+            want = "(or %s)" % " ".join(alts)
+        items.append(("parse-error short-circuit path[%s]: no output, and the report holds exactly the earlier parse-stage diagnostics, the error and "
+                      "every later parser error/warning, in order - every analysis-stage diagnostic is dropped" % p,
+                      pcs + ["(not (and %s %s))" % (no_output, want)], "unsat"))
+        items.append(("reachable: parse-error short-circuit path[%s]" % p, pcs, "info"))
+    if n == 0:
+        run.inconclusive.append("parse_events: the Error branch produced no result path")
+    run.bounds.append("M: parse_events over [Error, Start, Warning, Error, End] from a report with two earlier diagnostics of symbolic stage and severity")
+    batch = mcheck.Batch(ms, "c07-err", list(sem.decls), timeout_s=60)
+
+    def on_sat(name):
+        def cb(model, ob, item):
+            bad = judge_short_circuit(nat)
+            run.traces_validated += len(SHORT_CASES)
+            if bad:
+                run.violation("kernel=analysis::RecipeCollector::parse_events parse-error-short-circuit", "; ".join(bad[:2])[:600],
+                              dict(engine="mir-smt", replay="short_circuit"))
+                ob["status"] = "violated"
+            else:
+                run.inconclusive.append("C07 %s: candidate does not reproduce through the public parser" % name[:80])
+        return cb
+    for name, asserts, expect in items:
+        batch.add(name, asserts, expect, (), on_sat(name))
+    batch.run()
+
+
+SHORT_CASES = [
+    # an analysis-stage warning / error before a parse error: only parse-stage diagnostics may remain, and there is no output
+    "#pot{=1}\\n\\n@{}\\n",
+    ">> [flavour]: sweet\\n@salt{=some}\\n\\n~{5}\\n",
+    "@&ghost{}\\n\\n@{}\\n",
+]
+
+
+def judge_short_circuit(nat, profile="debug"):
+    bad = []
+    for text in SHORT_CASES:
+        r = nat.call("parse_report", "extended", text, profile=profile)
+        if "error" in r or r.get("panic"):
+            bad.append("%r: parse failed %s" % (text, r))
+            continue
+        if r.get("has_output") is not False:
+            bad.append("%r: a parse error must suppress the output" % text)
+        stray = [d for d in r.get("diags", []) if d.get("stage") != "Parse"]
+        if stray:
+            bad.append("%r: analysis-stage diagnostics survive next to a parse error: %s" % (text, [d.get("message") for d in stray]))
+        if not any(d.get("severity") == "Error" for d in r.get("diags", [])):
+            bad.append("%r: expected a parse error" % text)
+    return bad
 
 
 CASES = [
@@ -112,6 +290,14 @@ def check(run):
     run.traces_validated += len(CASES)
     if bad and not run.violations:
         run.violation("validation-vector scaling-lock cases", "; ".join(bad[:3]), dict(engine="validation-vector", replay="parse_report"))
+    if os.environ.get("VERIF_ONLY", "") in ("", "A"):
+        # diagnostics built by the component handlers: stage, severity, when they are raised, where the primary label sits
+        import analysis
+        analysis.run_for(run, scr, nat, "C07")
+    bad = judge_short_circuit(nat)
+    run.traces_validated += len(SHORT_CASES)
+    if bad and not run.violations:
+        run.violation("validation-vector parse-error short-circuit", "; ".join(bad[:2])[:600], dict(engine="validation-vector", replay="short_circuit"))
     run.not_covered += [
         "every other diagnostic of the catalogue (parser-stage checks, references, notes, timers, modes, front matter): "
         "they sit behind the lexer/parser or build their messages with format!, out of reach of both engines (DESIGN 6)",
@@ -125,7 +311,8 @@ def replay(run, path):
     scr.inject()
     nat = native.Native(scr)
     nat.build()
-    bad = judge(nat)
+    import analysis
+    bad = judge(nat) + judge_short_circuit(nat) + analysis.judge_structure(nat)
     print("replay:", bad)
     if bad:
         print("VIOLATION property=C07 replay=%s" % path)
